@@ -279,8 +279,31 @@ func lzInputs(c *Ctx, maxLen int, count int) []lzInput {
 		}
 		add("periodic", bytes.Repeat(per, 1+6000/p))
 	}
+	// mirror probes: a 59-byte run followed by byte Y placed so that its search-tree node sits at the very
+	// end of the ring buffer (input offset = 59 mod 2048, +-2), then the same run followed by Z further on:
+	// the comparison of the 60th byte reads the mirrored copy textBuf[N..N+F-2] of the ring start.
+	for _, j := range []int{0, 1} {
+		for d := -2; d <= 2; d++ {
+			for _, yz := range [][2]byte{{0, 'B'}, {'B', 0}, {'C', 'B'}} {
+				off := 59 + 2048*j + d
+				b := make([]byte, 0, off+3000)
+				for len(b) < off {
+					b = append(b, byte('a'+len(b)%23))
+				}
+				b = append(b, bytes.Repeat([]byte{'A'}, 59)...)
+				b = append(b, yz[0])
+				for k := 0; k < 900+c.Rng.Intn(200); k++ {
+					b = append(b, byte('a'+k%19))
+				}
+				b = append(b, bytes.Repeat([]byte{'A'}, 59)...)
+				b = append(b, yz[1])
+				b = append(b, []byte("the end")...)
+				add("mirror-probe", b)
+			}
+		}
+	}
 	for i := 0; len(ins) < count; i++ {
-		switch c.Rng.Intn(8) {
+		switch c.Rng.Intn(9) {
 		case 0: // leading spaces (matches into the pre-start region)
 			n := c.Rng.Intn(200)
 			b := append(bytes.Repeat([]byte{' '}, n), []byte(fmt.Sprintf("x%dy  z   ", i))...)
@@ -320,6 +343,13 @@ func lzInputs(c *Ctx, maxLen int, count int) []lzInput {
 				b = append(b, bytes.Repeat([]byte{byte(c.Rng.Intn(4))}, 1+c.Rng.Intn(130))...)
 			}
 			add("run-length", b)
+		case 8: // runs over an alphabet that contains NUL (the zero-initialised mirror/look-ahead regions are only
+			// distinguishable from real data when the data itself contains zero bytes)
+			var b []byte
+			for len(b) < 2200+c.Rng.Intn(5000) {
+				b = append(b, bytes.Repeat([]byte{[]byte{0, 'A', 'B', 0}[c.Rng.Intn(4)]}, 1+c.Rng.Intn(70))...)
+			}
+			add("nul-runs", b)
 		case 6: // exact-length-match structure (mini Fibonacci profile)
 			add("fib-profile-mini", fibProfile(0.02+c.Rng.Float64()*0.05))
 		default:
